@@ -157,7 +157,10 @@ class ListProxy(_SliceNormalizerMixIn, list):
         return type(self._parent)(other * list(self))
 
     def __imul__(self, other):
-        self.extend(list(self) * (other - 1))
+        if other <= 0:
+            del self[:]
+        else:
+            self.extend(list(self) * (other - 1))
         return self
 
     @property
@@ -184,6 +187,14 @@ class ListProxy(_SliceNormalizerMixIn, list):
     @inheritdoc
     def append(self, item):
         self._parent.insert(self._stop, item)
+
+    @inheritdoc
+    def clear(self):
+        del self[:]
+
+    @inheritdoc
+    def copy(self):
+        return list(self)
 
     @inheritdoc
     def count(self, item):
